@@ -176,7 +176,7 @@ class Check(DiffCheck):
     extract_v = 'C05/C05_Extract.v'
     runner_ml = 'ocaml/C05_run.ml'
     model_module = 'C05_model'
-    case_timeout = 900
+    case_timeout = 3000      # guard against a hung dispatcher only: the harnesses have their own per-case / per-command limits; on a machine with load > 100 a shard of ~400 cases has needed > 900 s
     rule = ('P: E2 programs of 2-7 threads x 1-8 ops (create joinable/not, yield, usleep, interrupt, join, nthreads, released) on one vCPU '
             'under the virtual clock; non-trivial = a thread is created while another runs/sleeps and is joined or dies non-joinable. '
             'A: E3 schedules for asymmetric_spinLock, exhaustive prefixes for 2 participants, random for 3-4; non-trivial = owner and a '
@@ -416,14 +416,13 @@ while i < len(lines):
             self._e4_cat = getattr(self, '_e4_cat', {})
             # (1) every interleaving of vCPU turns under the library idler's own policy (`a<v>`)
             La = (6 if nv == 2 else 4) if quick else (10 if nv == 2 else 6)
-            if drain: La += 1 if quick else 0
             for w in itertools.product(range(nv), repeat=La):
                 c = base + ' ' + ' '.join('a%d' % v for v in w) + drain
                 cand.append(c); self._e4_cat[c] = 'M:%s:turns' % name
             # (2) every short word over the fine-grained commands after a random `a` prefix that reaches deeper states
             alpha = ['%s%d' % (k, v) for k in 'srwy' for v in range(nv)] + ['t25']
             Lf = 2 if quick else 3
-            for _ in range(2 if quick else 4):
+            for _ in range((1 if drain else 2) if quick else 4):
                 pre = ' '.join('a%d' % rng.randrange(nv) for _ in range(0 if name == 'yieldwin' else rng.randrange(0, 9)))   # yieldwin: stay inside the window
                 for w in itertools.product(alpha, repeat=Lf):
                     c = (base + ' ' + pre).rstrip() + ' ' + ' '.join(w) + ' ' + ' '.join('a%d' % rng.randrange(nv) for _ in range(4)) + drain
